@@ -217,12 +217,13 @@ Record inv (st : backend) : Prop := mkInv {
   inv_hdr : forall b d, afind b (be_live st) = Some d -> hdr_ok d;
   inv_log : log_live (be_log st) = Some (map fst (be_live st));
   inv_fresh : forall b, be_next st <= b -> n_malloc b (be_log st) = 0%nat;
-  inv_once : forall b, (n_malloc b (be_log st) <= 1)%nat
+  inv_once : forall b, (n_malloc b (be_log st) <= 1)%nat;
+  inv_nofreenull : ~ In (BFree Null) (be_log st)
 }.
 
 Lemma inv_init : forall plan cap junk, inv (init plan cap junk).
 Proof.
-  intros. constructor; cbn; try reflexivity; try discriminate; intros; lia.
+  intros. constructor; cbn; try reflexivity; try discriminate; intros; try lia; auto.
 Qed.
 
 (* ---- the states the manager's functions lead to -------------------------------------- *)
@@ -243,8 +244,9 @@ Definition st_upd (st : backend) (b : N) (d : list N) : backend :=
 
 Lemma inv_st_fail : forall st n, inv st -> inv (st_fail st n).
 Proof.
-  intros st n [F K H L Fr O]. constructor; cbn; auto.
-  now rewrite L.
+  intros st n [F K H L Fr O Nf]. constructor; cbn; auto.
+  - now rewrite L.
+  - intros [E|E]; [discriminate|auto].
 Qed.
 
 Lemma inv_notin_next : forall st, inv st -> amem (be_next st) (be_live st) = false.
@@ -256,7 +258,7 @@ Qed.
 Lemma inv_st_new : forall st n d, inv st -> hdr_ok d -> inv (st_new st n d).
 Proof.
   intros st n d I Hd. pose proof (inv_notin_next _ I) as Hn.
-  destruct I as [F K H L Fr O]. constructor; cbn.
+  destruct I as [F K H L Fr O Nf]. constructor; cbn.
   - assumption.
   - intros b. unfold amem. cbn. destruct (N.eqb_spec (be_next st) b) as [<-|Hne]; [lia|].
     intros Hb. apply K in Hb. lia.
@@ -266,19 +268,21 @@ Proof.
   - intros b. destruct (N.eqb_spec (be_next st) b) as [<-|Hne].
     + rewrite Fr by lia. lia.
     + cbn. apply O.
+  - intros [E|E]; [discriminate|auto].
 Qed.
 
 Lemma inv_st_freed : forall st b, inv st -> amem b (be_live st) = true -> inv (st_freed st b).
 Proof.
-  intros st b [F K H L Fr O] Hb. constructor; cbn; auto.
+  intros st b [F K H L Fr O Nf] Hb. constructor; cbn; auto.
   - intros b'. unfold amem. rewrite afind_aremove. destruct (b =? b'); [discriminate|]. apply K.
   - intros b' d. rewrite afind_aremove. destruct (b =? b'); [discriminate|]. apply H.
   - rewrite L, amem_kmem, Hb, keys_aremove. reflexivity.
+  - intros [E|E]; [discriminate|auto].
 Qed.
 
 Lemma inv_st_upd : forall st b d, inv st -> hdr_ok d -> inv (st_upd st b d).
 Proof.
-  intros st b d [F K H L Fr O] Hd. constructor; cbn; auto.
+  intros st b d [F K H L Fr O Nf] Hd. constructor; cbn; auto.
   - intros b'. unfold amem. rewrite afind_aupdate. destruct (N.eqb_spec b b') as [<-|Hne].
     + destruct (amem b (be_live st)) eqn:E; [|discriminate]. intros _. now apply K.
     + apply K.
@@ -755,3 +759,344 @@ Proof.
     + constructor; assumption.
     + cbn. now rewrite L2.
 Qed.
+
+(* ------------------------------------------------------------------------------------ *)
+(* what acceptance by the specification means, clause by clause                          *)
+(* ------------------------------------------------------------------------------------ *)
+Definition is_alloc_call (o : sop) : bool :=
+  match o with SMalloc _ | SCalloc _ _ | SRealloc _ _ | SReallocarray _ _ _ => true | _ => false end.
+
+(* realloc(p, 0) and reallocarray(p, n, s) with n*s = 0, p != NULL: "equivalent to free(p)" *)
+Definition frees_by_convention (o : sop) : bool :=
+  match o with
+  | SRealloc (Some _) n => n =? 0
+  | SReallocarray (Some _) nm sz => nm * sz =? 0
+  | _ => false
+  end.
+
+Lemma s_alloc_null : forall s n z r s', s_alloc s n z r = Some s' -> sr_ptr r = None -> s' = s.
+Proof.
+  intros s n z r s' H Hp. unfold s_alloc in H. rewrite Hp in H.
+  destruct (failure_ok r); now inversion H.
+Qed.
+
+Lemma s_alloc_some : forall s n z r s' id, s_alloc s n z r = Some s' -> sr_ptr r = Some id ->
+  amem id s = false /\ s' = (id, sr_data r) :: s /\ n <= len (sr_data r) /\ sr_errno r = None
+  /\ (z = true -> firstn (N.to_nat n) (sr_data r) = repeat 0 (N.to_nat n)).
+Proof.
+  intros s n z r s' id H Hp. unfold s_alloc in H. rewrite Hp in H.
+  destruct (amem id s); [discriminate|].
+  destruct (sr_errno r) as [e|]; cbn [is_none negb] in H; [discriminate|].
+  destruct (N.leb_spec n (len (sr_data r))) as [Hle|]; cbn [negb] in H; [|discriminate].
+  destruct z; cbn [andb] in H.
+  - destruct (list_eqb (firstn (N.to_nat n) (sr_data r)) (repeat 0 (N.to_nat n))) eqn:E;
+      cbn [negb] in H; [|discriminate].
+    apply list_eqb_eq in E. inversion H. auto.
+  - inversion H. repeat split; auto. discriminate.
+Qed.
+
+Lemma s_realloc_null : forall s id n r s', s_realloc s (Some id) n r = Some s' ->
+  n <> 0 -> sr_ptr r = None -> s' = s.
+Proof.
+  intros s id n r s' H Hn Hp. unfold s_realloc in H.
+  destruct (afind id s); [|discriminate].
+  destruct (N.eqb_spec n 0); [contradiction|]. rewrite Hp in H.
+  destruct (failure_ok r); now inversion H.
+Qed.
+
+(* a failed allocation call changes nothing *)
+Theorem spec_failure_intact : forall s o r s', sstep s o r = Some s' ->
+  is_alloc_call o = true -> frees_by_convention o = false -> sr_ptr r = None -> s' = s.
+Proof.
+  intros s o r s' H Ha Hf Hp. destruct o as [n|nm sz|p n|p nm sz|p|p off data|p off n];
+    try discriminate; cbn [sstep] in H.
+  - eapply s_alloc_null; eassumption.
+  - destruct (SIZE_LIMIT <=? nm * sz).
+    + destruct (enomem_failure r); now inversion H.
+    + eapply s_alloc_null; eassumption.
+  - destruct p as [id|].
+    + cbn in Hf. eapply s_realloc_null; try eassumption. now apply N.eqb_neq.
+    + eapply s_alloc_null; eassumption.
+  - destruct (SIZE_LIMIT <=? nm * sz).
+    + destruct (enomem_failure r); now inversion H.
+    + destruct p as [id|].
+      * cbn in Hf. eapply s_realloc_null; try eassumption. now apply N.eqb_neq.
+      * eapply s_alloc_null; eassumption.
+Qed.
+
+(* element-count products that overflow: NULL, errno = ENOMEM, nothing changes *)
+Theorem spec_overflow_enomem : forall s o r s' nm sz,
+  (o = SCalloc nm sz \/ exists p, o = SReallocarray p nm sz) ->
+  SIZE_LIMIT <= nm * sz -> sstep s o r = Some s' ->
+  sr_ptr r = None /\ sr_errno r = Some AllocSpec.ENOMEM /\ s' = s.
+Proof.
+  intros s o r s' nm sz Ho Hov H.
+  assert (E : SIZE_LIMIT <=? nm * sz = true) by now apply N.leb_le.
+  assert (G : (if enomem_failure r then Some s else None) = Some s' ->
+              sr_ptr r = None /\ sr_errno r = Some AllocSpec.ENOMEM /\ s' = s).
+  { unfold enomem_failure. destruct (sr_ptr r); [discriminate|].
+    destruct (sr_data r); [|discriminate]. destruct (sr_errno r) as [e|]; [|discriminate].
+    cbn. destruct (N.eqb_spec e AllocSpec.ENOMEM) as [->|]; [|discriminate].
+    intros [= <-]. auto. }
+  destruct Ho as [->|[p ->]]; cbn [sstep] in H; rewrite E in H; auto.
+Qed.
+
+(* calloc hands out a fresh block of at least the product, zeroed *)
+Theorem spec_calloc_zeroed : forall s nm sz r s' id,
+  sstep s (SCalloc nm sz) r = Some s' -> sr_ptr r = Some id ->
+  amem id s = false /\ s' = (id, sr_data r) :: s /\ nm * sz < SIZE_LIMIT
+  /\ nm * sz <= len (sr_data r)
+  /\ firstn (N.to_nat (nm * sz)) (sr_data r) = repeat 0 (N.to_nat (nm * sz)).
+Proof.
+  intros s nm sz r s' id H Hp. cbn [sstep] in H.
+  destruct (N.leb_spec SIZE_LIMIT (nm * sz)) as [|Hok].
+  - unfold enomem_failure in H. rewrite Hp in H. discriminate.
+  - destruct (s_alloc_some _ _ _ _ _ _ H Hp) as (A & B & C & D & E).
+    exact (conj A (conj B (conj Hok (conj C (E eq_refl))))).
+Qed.
+
+(* malloc hands out a fresh block of at least the requested size *)
+Theorem spec_malloc_fresh : forall s n r s' id,
+  sstep s (SMalloc n) r = Some s' -> sr_ptr r = Some id ->
+  amem id s = false /\ s' = (id, sr_data r) :: s /\ n <= len (sr_data r).
+Proof.
+  intros s n r s' id H Hp. cbn [sstep] in H.
+  destruct (s_alloc_some _ _ _ _ _ _ H Hp) as (A & B & C & D & E).
+  exact (conj A (conj B C)).
+Qed.
+
+(* realloc of a live block to a non-zero size: the result is the old block or a fresh one, at
+   least n bytes, the common prefix is preserved, the old block is gone if the result is new *)
+Theorem spec_realloc_prefix : forall s id n r s' id' c,
+  sstep s (SRealloc (Some id) n) r = Some s' -> n <> 0 -> afind id s = Some c ->
+  sr_ptr r = Some id' ->
+  let k := N.to_nat (N.min (len c) n) in
+  n <= len (sr_data r) /\ firstn k (sr_data r) = firstn k c
+  /\ ((id' = id /\ s' = aupdate id (sr_data r) s)
+      \/ (id' <> id /\ amem id' s = false /\ s' = (id', sr_data r) :: aremove id s)).
+Proof.
+  intros s id n r s' id' c H Hn Hc Hp k. cbn [sstep] in H. unfold s_realloc in H.
+  rewrite Hc in H. destruct (N.eqb_spec n 0); [contradiction|]. rewrite Hp in H.
+  destruct (sr_errno r); cbn [is_none negb] in H; [discriminate|].
+  destruct (N.leb_spec n (len (sr_data r))); cbn [negb] in H; [|discriminate].
+  fold k in H.
+  destruct (list_eqb (firstn k (sr_data r)) (firstn k c)) eqn:E; cbn [negb] in H; [|discriminate].
+  apply list_eqb_eq in E. split; [assumption|]. split; [assumption|].
+  destruct (N.eqb_spec id' id) as [->|Hne].
+  - left. inversion H. auto.
+  - right. destruct (amem id' s); [discriminate|]. inversion H. auto.
+Qed.
+
+(* realloc(NULL, n) is malloc(n); realloc(p, 0) and free(p) release p and return NULL *)
+Theorem spec_null_zero_conventions : forall s r,
+  (forall n, sstep s (SRealloc None n) r = sstep s (SMalloc n) r)
+  /\ (forall id, amem id s = true ->
+        sstep s (SRealloc (Some id) 0) r = sstep s (SFree (Some id)) r
+        /\ (forall s', sstep s (SFree (Some id)) r = Some s' ->
+              sr_ptr r = None /\ s' = aremove id s))
+  /\ (forall s', sstep s (SFree None) r = Some s' -> s' = s).
+Proof.
+  intros s r. split; [reflexivity|]. split.
+  - intros id Hid. split.
+    + cbn [sstep s_realloc]. destruct (amem_afind _ _ Hid) as [c ->]. reflexivity.
+    + intros s' H. cbn [sstep] in H. unfold s_free in H.
+      destruct (no_result r) eqn:E; cbn [negb] in H; [|discriminate].
+      rewrite Hid in H. inversion H. split; [|reflexivity].
+      unfold no_result in E. destruct (sr_ptr r); [discriminate|reflexivity].
+  - intros s' H. cbn [sstep] in H. unfold s_free in H.
+    destruct (no_result r); cbn [negb] in H; [|discriminate]. now inversion H.
+Qed.
+
+(* ------------------------------------------------------------------------------------ *)
+(* the backend's view                                                                   *)
+(* ------------------------------------------------------------------------------------ *)
+Lemma kmem_kremove : forall b b' l, kmem b (kremove b' l) = if b' =? b then false else kmem b l.
+Proof.
+  intros b b'. induction l as [|x l IH]; [now destruct (b' =? b)|].
+  cbn. destruct (N.eqb_spec x b') as [->|Hx].
+  - rewrite IH. destruct (N.eqb_spec b' b); reflexivity.
+  - cbn. rewrite IH. destruct (N.eqb_spec b' b) as [->|]; [|reflexivity].
+    destruct (N.eqb_spec x b); [contradiction|reflexivity].
+Qed.
+
+(* a legitimate log: every block is released as often as it was handed out, minus one if live *)
+Lemma log_live_counts : forall l live, log_live l = Some live ->
+  forall b, n_malloc b l = (n_free b l + (if kmem b live then 1 else 0))%nat.
+Proof.
+  induction l as [|e l IH]; intros live H b.
+  - inversion H. reflexivity.
+  - cbn [log_live] in H. destruct (log_live l) as [live0|]; [|discriminate].
+    specialize (IH live0 eq_refl b).
+    destruct e as [n [|b' o]|[|b' o]]; cbn [n_malloc n_free].
+    + inversion H. subst. exact IH.
+    + destruct (Z.eqb o 0); cbn [andb] in H; [|discriminate].
+      destruct (kmem b' live0) eqn:E; cbn [negb] in H; [discriminate|]. inversion H. subst live.
+      cbn [kmem]. destruct (N.eqb_spec b' b) as [->|]; cbn [orb].
+      * rewrite E in IH. lia.
+      * exact IH.
+    + inversion H. subst. exact IH.
+    + destruct (Z.eqb o 0); cbn [andb] in H; [|discriminate].
+      destruct (kmem b' live0) eqn:E; [|discriminate]. inversion H. subst live.
+      rewrite kmem_kremove. destruct (N.eqb_spec b' b) as [->|].
+      * rewrite E in IH. lia.
+      * exact IH.
+Qed.
+
+(* in a legitimate log every free names the start of a block (or is free(NULL)) *)
+Lemma log_live_frees : forall l live, log_live l = Some live ->
+  forall p, In (BFree p) l -> p = Null \/ exists b, p = Ptr b 0.
+Proof.
+  induction l as [|e l IH]; intros live H p Hin; [contradiction|].
+  cbn [log_live] in H. destruct (log_live l) as [live0|] eqn:E0; [|discriminate].
+  destruct Hin as [->|Hin]; [|eapply IH; [reflexivity|exact Hin]].
+  destruct p as [|b o]; [now left|]. right. exists b.
+  destruct (Z.eqb o 0) eqn:E; [apply Z.eqb_eq in E; now subst|cbn [andb] in H; discriminate].
+Qed.
+
+Theorem backend_discipline : forall st, inv st ->
+  be_fault st = false
+  /\ log_live (be_log st) = Some (map fst (be_live st))
+  /\ (forall p, In (BFree p) (be_log st) -> exists b, p = Ptr b 0)
+  /\ (forall b, (n_malloc b (be_log st) <= 1)%nat
+                /\ n_malloc b (be_log st)
+                   = (n_free b (be_log st) + (if amem b (be_live st) then 1 else 0))%nat).
+Proof.
+  intros st I. split; [apply (inv_fault _ I)|]. split; [apply (inv_log _ I)|]. split.
+  - intros p Hin. destruct (log_live_frees _ _ (inv_log _ I) p Hin) as [->|H]; [|exact H].
+    exfalso. exact (inv_nofreenull _ I Hin).
+  - intros b. split; [apply (inv_once _ I)|].
+    rewrite (log_live_counts _ _ (inv_log _ I) b), amem_kmem. reflexivity.
+Qed.
+
+(* ------------------------------------------------------------------------------------ *)
+(* the theorems of C15                                                                  *)
+(* ------------------------------------------------------------------------------------ *)
+(* every history: the results are allowed by the ideal allocator, the caller's view of the final
+   heap is the specification's final state, every returned pointer is NULL or backend pointer + 8 *)
+Theorem history_refines : forall plan cap junk ops,
+  client_ok (init plan cap junk) ops ->
+  let x := run (init plan cap junk) (map conc_op ops) in
+  accepts [] (combine ops (map abs_res (snd x))) = Some (abs (fst x))
+  /\ Forall (fun r => r_ptr r = conc_ptr (sr_ptr (abs_res r))) (snd x)
+  /\ length (snd x) = length ops
+  /\ inv (fst x).
+Proof.
+  intros plan cap junk ops C. cbv zeta.
+  destruct (run_refines ops _ (inv_init plan cap junk) C) as (I & A & F & L).
+  auto.
+Qed.
+
+(* every history: the backend is used correctly; each block it handed out is released at most
+   once, by the pointer the backend returned, and exactly once unless it is still live *)
+Theorem history_backend : forall plan cap junk ops,
+  client_ok (init plan cap junk) ops ->
+  let st := fst (run (init plan cap junk) (map conc_op ops)) in
+  be_fault st = false
+  /\ log_live (be_log st) = Some (map fst (be_live st))
+  /\ (forall p, In (BFree p) (be_log st) -> exists b, p = Ptr b 0)
+  /\ (forall b, (n_malloc b (be_log st) <= 1)%nat
+                /\ n_malloc b (be_log st)
+                   = (n_free b (be_log st) + (if amem b (be_live st) then 1 else 0))%nat).
+Proof.
+  intros plan cap junk ops C. cbv zeta.
+  destruct (run_refines ops _ (inv_init plan cap junk) C) as (I & _).
+  now apply backend_discipline.
+Qed.
+
+(* once the caller has freed everything nothing is live at the backend, and every block the
+   backend handed out has been released exactly once *)
+Theorem nothing_left : forall plan cap junk ops,
+  client_ok (init plan cap junk) ops ->
+  let st := fst (run (init plan cap junk) (map conc_op ops)) in
+  abs st = [] ->
+  be_live st = [] /\ forall b, n_free b (be_log st) = n_malloc b (be_log st).
+Proof.
+  intros plan cap junk ops C. cbv zeta. intros Hab.
+  destruct (run_refines ops _ (inv_init plan cap junk) C) as (I & _).
+  set (st := fst (run (init plan cap junk) (map conc_op ops))) in *.
+  assert (Hl : be_live st = []) by (unfold abs, amapf in Hab; now apply map_eq_nil in Hab).
+  split; [assumption|]. intros b.
+  destruct (backend_discipline _ I) as (_ & _ & _ & Hc). destruct (Hc b) as [_ E].
+  rewrite Hl in E. cbn in E. lia.
+Qed.
+
+(* a call that returns NULL (other than the free-by-convention cases) leaves every block of the
+   caller, the old block of a realloc included, exactly as it was *)
+Theorem failure_intact : forall st o, inv st -> svalid (abs st) o = true ->
+  is_alloc_call o = true -> frees_by_convention o = false ->
+  r_ptr (snd (step st (conc_op o))) = Null ->
+  abs (fst (step st (conc_op o))) = abs st.
+Proof.
+  intros st o I V Ha Hf Hn. destruct (step_refines st o I V) as (_ & S & _).
+  eapply spec_failure_intact; try eassumption. unfold abs_res. cbn [sr_ptr]. now rewrite Hn.
+Qed.
+
+(* the manager adds no failures of its own beyond the header overflow test: when the request
+   plus header fits in size_t and the backend serves it, the call succeeds *)
+Definition request (o : sop) : option N :=
+  match o with
+  | SMalloc n => Some n
+  | SCalloc nm sz => if nm * sz <? SIZE_LIMIT then Some (nm * sz) else None
+  | SRealloc _ n => Some n
+  | SReallocarray _ nm sz => if nm * sz <? SIZE_LIMIT then Some (nm * sz) else None
+  | _ => None
+  end.
+
+Lemma alloc_served : forall st n (a b : backend * ret) s k,
+  n <= SIZE_MAX - 8 -> refuses st (8 + n) = false ->
+  r_ptr (snd (alloc_result
+     (if SIZE_MAX - 8 <? n then a else if refuses st (8 + n) then b else (s, (Ptr k 8, None)))))
+  <> Null.
+Proof.
+  intros st n a b s k Hn Hr. rewrite Hr.
+  replace (SIZE_MAX - 8 <? n) with false by (symmetry; now apply N.ltb_ge).
+  cbn. discriminate.
+Qed.
+
+Lemma realloc_served : forall st p t, inv st -> ptr_ok (abs st) p = true -> t < 2 ^ 64 ->
+  (match p with Some _ => t =? 0 | None => false end) = false ->
+  t <= SIZE_MAX - 8 -> refuses st (8 + t) = false ->
+  r_ptr (snd (alloc_result (decorate_realloc st (conc_ptr p) t))) <> Null.
+Proof.
+  intros st [b|] t I Hp Ht Hz Hm Hr; cbn [conc_ptr].
+  - cbn [ptr_ok] in Hp. destruct (amem_afind _ _ Hp) as [c Hc].
+    apply N.eqb_neq in Hz.
+    rewrite (decorate_realloc_out _ _ _ _ I Hc Ht Hz).
+    destruct (t <=? len c); [cbn; discriminate|]. now apply alloc_served.
+  - change (decorate_realloc st Null t) with (decorate_malloc st t).
+    rewrite decorate_malloc_out by assumption. now apply alloc_served.
+Qed.
+
+Theorem served_when_backend_serves : forall st o t, inv st -> svalid (abs st) o = true ->
+  request o = Some t -> frees_by_convention o = false ->
+  t <= SIZE_MAX - 8 -> refuses st (8 + t) = false ->
+  r_ptr (snd (step st (conc_op o))) <> Null.
+Proof.
+  intros st o t I V Hq Hf Hm Hr.
+  destruct o as [n|nm sz|p n|p nm sz|p|p off data|p off n]; try discriminate;
+    cbn [svalid] in V; cbn [request] in Hq; cbn [conc_op step].
+  - injection Hq as ->. apply is_size_lt in V.
+    rewrite decorate_malloc_out by assumption. now apply alloc_served.
+  - apply andb_true_iff in V as [V1 V2]. apply is_size_lt in V1, V2.
+    destruct (N.ltb_spec (nm * sz) SIZE_LIMIT) as [Hok|]; [|discriminate]. injection Hq as <-.
+    rewrite emulate_calloc_out by assumption.
+    replace (SIZE_LIMIT <=? nm * sz) with false by (symmetry; now apply N.leb_gt).
+    now apply alloc_served.
+  - injection Hq as ->. apply andb_true_iff in V as [V1 V2]. apply is_size_lt in V2.
+    apply realloc_served; try assumption.
+    all: try (destruct p; [exact Hf|reflexivity]).
+  - apply andb_true_iff in V as [V V3]. apply andb_true_iff in V as [V1 V2].
+    apply is_size_lt in V2, V3.
+    destruct (N.ltb_spec (nm * sz) SIZE_LIMIT) as [Hok|]; [|discriminate]. injection Hq as <-.
+    rewrite emulate_reallocarray_out by assumption.
+    replace (SIZE_LIMIT <=? nm * sz) with false by (symmetry; now apply N.leb_gt).
+    apply realloc_served; try assumption.
+    all: try (now rewrite <- size_limit_val).
+    all: try (destruct p; [exact Hf|reflexivity]).
+Qed.
+
+(* where a live block of the caller is: inside its own backend block, right after the size
+   header, which still holds the block's size; distinct blocks are distinct backend blocks *)
+Theorem client_block_layout : forall st b c, inv st -> afind b (abs st) = Some c ->
+  afind b (be_live st) = Some (le_bytes 8 (len c) ++ c) /\ len c < 2 ^ 64.
+Proof. exact live_block. Qed.
